@@ -900,10 +900,19 @@ func main() {
 		nontrivial := abs.OK && (abs.HBH || abs.E2E != nil || abs.L4.Kind != 0)
 		term := vgen.App("Dispatcher.MkCase", cfgTerm(on), gDgram(abs), gOptIP(ul), gAP(prev),
 			obs[0].Term, obs[1].Term)
+		// open finding scmp-dst-type-unchecked (class computed from the input): an SCMP message
+		// other than an echo/traceroute request whose SCION destination is not of an IP type
+		// but has the length of an IP address
+		var tags []string
+		if abs.OK && abs.L4.Kind == 2 && abs.L4.Ty != 128 && abs.L4.Ty != 130 &&
+			abs.DstT != 0 && abs.DstT != 3 && (len(abs.DstRaw) == 4 || len(abs.DstRaw) == 16) {
+			tags = append(tags, "scmp-dst-type-unchecked")
+			run.Tally("class:scmp-dst-type-unchecked/" + obs[0].Kind)
+		}
 		run.Add(stream, term, fmt.Sprintf("%x|%v|%v|%v", in, on, ul, prev), nontrivial,
 			map[string]any{"datagram": fmt.Sprintf("%x", in), "gen": g.Kind, "dispatcher": on,
 				"outer_dst": ul.String(), "prev_hop": prev.String(),
-				"fresh": obs[0].Kind, "long_lived": obs[1].Kind})
+				"fresh": obs[0].Kind, "long_lived": obs[1].Kind}, tags...)
 	}
 	run.Extra("abstraction_selfcheck_mismatches", selfMismatch)
 	run.Finish()
